@@ -105,6 +105,7 @@ type Exec struct {
 	Trace   []string
 	cost    int
 	delays  int
+	frozen  bool
 
 	Viol     *Violation
 	Verdict  string // "complete", "violation", "blocked", "stepcap", "diverged"
@@ -130,6 +131,10 @@ func (x *Exec) Elapsed() time.Duration { return time.Since(x.start) }
 
 // Threads returns the registered threads (ids assigned).
 func (x *Exec) Threads() []*Thread { return x.threads }
+
+// Freeze ends the exploration part of an execution: from now on the controller follows the default
+// scheduler and offers no alternatives (used for a sequential epilogue such as a verdict at quiescence).
+func (x *Exec) Freeze() { x.frozen = true }
 
 // Delays is the number of delaying ticks taken so far (ticks chosen while some thread was enabled).
 func (x *Exec) Delays() int { return x.delays }
@@ -399,6 +404,10 @@ func (x *Exec) loop() {
 			continue
 		}
 		tickOffered := x.opts.AllowTick == nil || x.opts.AllowTick(x, en)
+		if x.frozen {
+			tickOffered = false
+			en = en[:1]
+		}
 		n := len(en)
 		if tickOffered {
 			n++
